@@ -1,4 +1,4 @@
-import NgoVerif.Proofs.C11sem
+import NgoVerif.Proofs.C11check
 import NgoVerif.Sem.Head
 import NgoVerif.Generated.Tables
 import NgoVerif.Meta.Algebra
@@ -63,6 +63,17 @@ theorem C11_head_condition (P : Sem.Params) (σ : String → String) (h : Head) 
   apply Sem.stdHeadSat_congr
   intro v hv
   simp [hfix v hv]
+
+open Proofs.C11sem Proofs.C11check in
+/-- **the executable check run on the real rewrites implies the strong equivalence** (`Proofs/C11check.lean`): whenever
+the driver answers `true` for a rule in which the real `symmetry` pass replaced `X != Y` by `X < Y`, the two rules are
+strongly equivalent - for every parameter choice whose `!=` is `<` or `>` -/
+theorem C11_check_strongeq (P : Sem.Params) (htotal : ∀ x y, P.rel .ne x y ↔ (P.rel .lt x y ∨ P.rel .lt y x))
+    (ps : List (String × String)) (pre post : Prog) (l c : Nat) (X Y : String) (h : Head) (b : List BLit)
+    (hc : symCheck ps X Y h b = true) :
+    Sem.StrongEq (Sem.stdParams P) (pre ++ .rule l c h (b ++ [cmpBLit X .ne Y]) :: post)
+      (pre ++ .rule l c h (b ++ [cmpBLit X .lt Y]) :: post) :=
+  symCheck_strongEq P htotal ps pre post l c X Y h b hc
 
 /-! non-vacuity: `f :- p(A,S), p(B,S), A != B.` satisfies the symmetry condition with the plain swap, and
 `f :- p(A), p(B), q(A,V), q(B,W), V != W, A != B.` with the double swap `A↔B, V↔W` -/
